@@ -1500,6 +1500,8 @@ class Engine(object):
         if st.depth >= self.max_depth or label in st.frames:
             st.emit('OPAQUECALL', (C(label),) + tuple(args), getattr(node, 'lineno', 0))
             return [R(st, ('call', ('opaque', label), tuple(args), tuple(kws)))]
+        if self_val is not None and any((isinstance(d_, ast.Name) and d_.id == 'staticmethod') for d_ in getattr(fnode, 'decorator_list', [])):
+            self_val = None        # a static method reached through the instance receives no self
         env = self.bind_args(fnode, args, kws, self_val)
         if env is None:
             raise AnalysisError('cannot bind arguments of inlined call to %s at line %d' % (label, getattr(node, 'lineno', 0)))
